@@ -552,6 +552,13 @@ fn scenario_arbiter(sc: &str) -> Result<Violations, String> {
     chk(&mut v, "C13.deliver", notices.len() == nconf);
     // the arbiter answers each notice echoing its op id and version:  resolve <opp_id> <db> <version> <key> <old> <new>
     let parsed: Vec<(u64, i32, String)> = notices.iter().map(|n| { let f: Vec<&str> = n.split(' ').collect(); (f[1].parse().unwrap(), f[3].parse().unwrap(), f[6..].join(" ")) }).collect();
+    // a second arbiter registering now is sent exactly the unresolved notices (all of them, nothing is resolved yet)
+    let (arb2, mut arx2) = Client::new_empty_and_receiver();
+    db.register_arbiter(&arb2);
+    let again = drain(&mut arx2);
+    let mut a_sorted = again.clone(); a_sorted.sort(); let mut n_sorted = notices.clone(); n_sorted.sort();
+    chk(&mut v, "C13.redeliver", a_sorted == n_sorted);
+    drain(&mut arx);
     for (step, idx) in order.iter().enumerate() {
         if *idx >= parsed.len() { continue; }
         let (opp_id, version, value) = parsed[*idx].clone();
@@ -568,10 +575,66 @@ fn scenario_arbiter(sc: &str) -> Result<Violations, String> {
             chk(&mut v, "C13.resolved-value", e.value == value);
         }
     }
+    // once everything is resolved a newly registered arbiter is sent nothing, and the resolved notices are gone
+    if order.len() == nconf {
+        let (arb3, mut arx3) = Client::new_empty_and_receiver();
+        db.register_arbiter(&arb3);
+        chk(&mut v, "C13.redeliver", drain(&mut arx3).is_empty());
+        chk(&mut v, "C13.redeliver", db.list_keys(&"$conflicts_k".to_string(), true).is_empty());
+    }
     Ok(v)
 }
 fn all_arbiter_scenarios() -> Vec<String> {
     vec!["1|0", "2|01", "2|10", "3|012", "3|021", "3|102", "3|120", "3|201", "3|210"].into_iter().map(|x| x.to_string()).collect()
+}
+
+// ------------------------------------------------------------------ family: watch (subscription windows, sequential)
+fn scenario_watch(sc: &str) -> Result<Violations, String> {
+    // sc = events separated by '.':  wA wB (watch k) uA uB (unwatch k) xA xB (unwatch-all) oA (A watches other key) s (set k) i (inc k) r (remove k) f (refused set-safe)
+    let dbs = mk_dbs();
+    let db = Database::new("d".into(), DatabaseMataData::new(1, ConsensuStrategy::None));
+    db.set_value_version(&"k".to_string(), &"5".to_string(), 3, ValueStatus::Ok, 1, 2, 3);
+    let (sa, mut ra): (Sender<String>, Receiver<String>) = channel(1000);
+    let (sb, mut rb): (Sender<String>, Receiver<String>) = channel(1000);
+    let mut sub = [false, false];
+    let mut expect = [0usize, 0usize];
+    let mut v: Violations = vec![];
+    for ev in sc.split('.').filter(|e| !e.is_empty()) {
+        let who = if ev.ends_with('B') { 1 } else { 0 };
+        let snd = if who == 1 { &sb } else { &sa };
+        match &ev[0..1] {
+            "w" => { if !sub[who] { watch_key(&"k".to_string(), snd, &db); sub[who] = true; } }
+            "u" => { unwatch_key(&"k".to_string(), snd, &db); sub[who] = false; }
+            "x" => { unwatch_all(snd, &db); sub[who] = false; }
+            "o" => { watch_key(&"other".to_string(), snd, &db); }
+            "s" => { set_key_value("k".into(), "7".into(), -1, &db, &dbs); for w in 0..2 { if sub[w] { expect[w] += 2; } } }
+            "i" => { db.inc_value("k".into(), 1); for w in 0..2 { if sub[w] { expect[w] += 2; } } }
+            "r" => { remove_key(&"k".to_string(), &db); for w in 0..2 { if sub[w] { expect[w] += 1; } } }
+            "f" => { set_key_value("k".into(), "zz".into(), 0, &db, &dbs); }
+            _ => return Err("bad event".into()),
+        }
+        let got = [drain(&mut ra), drain(&mut rb)];
+        for w in 0..2 {
+            let ok = got[w].len() == expect[w] && got[w].iter().all(|m| m.starts_with("changed k ") || m.starts_with("changed-version k ") || m == "removed k\n");
+            chk(&mut v, "C03.subscription-window", ok);
+            chk(&mut v, "C03.watch-appends", ok); chk(&mut v, "C03.watch-frame", ok);
+            chk(&mut v, "C03.emit-set", ok || !(ev == "s")); chk(&mut v, "C03.emit-inc", ok || !(ev == "i")); chk(&mut v, "C03.emit-removed", ok || !(ev == "r"));
+            chk(&mut v, "C03.no-emit-refused", ok || !(ev == "f"));
+            expect[w] = 0;
+        }
+    }
+    Ok(v)
+}
+fn all_watch_scenarios() -> Vec<String> {
+    let evs = ["wA", "wB", "uA", "uB", "xA", "xB", "oA", "s", "i", "r", "f"];
+    let mut out = vec![];
+    fn rec(evs: &[&str], cur: &mut Vec<String>, depth: usize, out: &mut Vec<String>) {
+        if !cur.is_empty() { out.push(cur.join(".")); }
+        if depth == 0 { return; }
+        for e in evs { cur.push(e.to_string()); rec(evs, cur, depth - 1, out); cur.pop(); }
+    }
+    rec(&evs, &mut vec![], if deep() { 5 } else { 4 }, &mut out);
+    out
 }
 
 // ------------------------------------------------------------------ family: lines (hostile command lines, then a probe from a second client)
@@ -608,7 +671,8 @@ fn families() -> Vec<(&'static str, fn() -> Vec<String>, fn(&str) -> Result<Viol
     vec![("store", all_store_scenarios, scenario_store), ("strategy", all_strategy_scenarios, scenario_strategy),
          ("pending", all_pending_scenarios, scenario_pending), ("ids", all_ids_scenarios, scenario_ids),
          ("oplog", all_oplog_scenarios, scenario_oplog), ("session", all_session_scenarios, scenario_session),
-         ("arbiter", all_arbiter_scenarios, scenario_arbiter), ("lines", all_lines_scenarios, scenario_lines)]
+         ("arbiter", all_arbiter_scenarios, scenario_arbiter), ("lines", all_lines_scenarios, scenario_lines),
+         ("watch", all_watch_scenarios, scenario_watch)]
 }
 
 fn main() {
